@@ -128,7 +128,7 @@ class Hist:
             if tgt is not None:
                 tgt.setdefault("env", {}).setdefault("local", {})["CFLAGS"] = f"-DEDIT{self.counter}"
             elif f == "laze-project.yml":
-                docs[0]["contexts"][0].setdefault("env", {})["X"] = f"edit{self.counter}"
+                projcheck.default_context(self.project).setdefault("env", {})["X"] = f"edit{self.counter}"
             else:
                 docs[0]["meta"] = {"edit": self.counter}
             projrun.write_project(self.s.d, {f: docs})
